@@ -691,7 +691,14 @@ def worker(job):
 # judging (TLC)
 # ----------------------------------------------------------------------------------------
 def _stage(R):
-    return "convert" if "from_pddl.py" in R.get("rwhere", "") else "parse"
+    """where the reader raised (an observation taken from the traceback): inside unified_planning's converter of
+    the third-party parse result, or while the third-party parser read the problem file / the domain file"""
+    w = R.get("rwhere", "")
+    if R["reader"] != "ai":
+        return "parse"
+    if "from_pddl.py" in w:
+        return "convert"
+    return "parse-problem" if "problem.py:" in w else "parse-domain"
 
 
 def _plan_rec(pr):
@@ -833,7 +840,7 @@ def judge_records(ctx, recs, D, skipped=None, tag=""):
         reader = R["reader"] if R is not None else "writer"
         extra = ""
         if clause == "ai-reader-missing-requirement":
-            extra = _requirement(R["rmsg"]) + ("@problem-file" if "problem.py" in R.get("rwhere", "") else "@domain-file")
+            extra = _requirement(R["rmsg"])
         sig = signature(reader, clause, feats, extra)
         data = {"clause": clause, "detail": detail, "slice": rec["slice"], "features": feats, "problem": rec["P"], "job": rec.get("job"),
                 "domain_pddl": rec["W"]["dom"], "problem_pddl": rec["W"]["prob"], "writer_exception": [rec["W"]["wexc"], rec["W"]["wmsg"]]}
